@@ -454,6 +454,26 @@ def _r1_r2_fkm(ctx):
     if len(prim) != 1:
         raise AnalysisError("FKMDetector.process: primary-counter branch not found")
     _cmp_pred(ctx, fi, prim[0], prim[0].test, atom, "ac > mx", m, "primary-path counter test")
+    # the counter test belongs to the case 'stack exactly on the primary path' (iz == ir): it must not be reachable from the
+    # branch iz > ir (loops still open above the primary path) without going round the while loop again
+    wl = [s_ for s_ in loop.body if isinstance(s_, ast.While)]
+    above = [s_ for s_ in walk_stmts(loop.body) if isinstance(s_, ast.If) and any(x is closing for x in s_.body)]
+    if len(wl) == 1 and len(above) == 1:
+        cfg = CFG(fi.node)
+        start = cfg.node(above[0].body[0])
+        hdr, tgt = cfg.node(wl[0]), cfg.node(prim[0])
+        if start is None or hdr is None or tgt is None:
+            raise AnalysisError("FKMDetector.process: CFG nodes of the case analysis not found")
+        if tgt in cfg.reachable(start, avoid={hdr}):
+            ctx.violated(fi, above[0], "the branch for loops still open above the primary path (%s) falls through into the "
+                         "primary-path counter test %s: the counter grows while inner loops are open, so loops the HCM rule "
+                         "closes stay in the residual" % (norm_text(above[0].test), norm_text(prim[0].test)),
+                         rule="R-C02-1", text="fall through into primary counter")
+        else:
+            ctx.holds(fi, above[0], "the open-loop branch (%s) returns to the loop test; the primary-path counter is only "
+                      "reached with the stack on the primary path" % norm_text(above[0].test), rule="R-C02-1")
+    else:
+        raise AnalysisError("FKMDetector.process: while loop / open-loop branch not found")
     # R-C02-2
     apps = {}
     pops = 0
@@ -743,6 +763,18 @@ def _closing_if(tree, fname):
 
 def variants():
     out = []
+
+    def drop_continue(tree):
+        f = find_func(tree, "FKMDetector.process")
+        for n in ast.walk(f):
+            if isinstance(n, ast.If):
+                for i, st in enumerate(n.body):
+                    if isinstance(st, ast.Continue) and i == len(n.body) - 1 and len(n.body) > 1:
+                        del n.body[i]
+                        return True
+        return False
+    out.append(witness("FKM open-loop branch falls through into the primary counter", "src/pylife/stress/rainflow/fkm.py",
+                       drop_continue, "R-C02-1"))
 
     def fast_path_no_kernel(tree):
         f = find_func(tree, "FourPointDetector.process")
